@@ -3,6 +3,7 @@ package lsp
 import (
 	"encoding/json"
 	"fmt"
+	"github.com/ajitpratap0/GoSQLX/pkg/linter"
 	"regexp"
 	"strconv"
 	"strings"
@@ -701,7 +702,13 @@ func (h *Handler) handleFormatting(params json.RawMessage) ([]TextEdit, error) {
 
 // formatSQL provides basic SQL formatting
 func formatSQL(sql string, opts FormattingOptions) string {
-	// Basic SQL formatter - normalize whitespace and keyword casing
+	// Basic SQL formatter - normalize whitespace and keyword casing.
+	// Literal, quoted-identifier and comment content is masked first so that it is left
+	// alone even where it spans several lines.
+	sql, restore, ok := linter.MaskForRewrite(sql)
+	if !ok {
+		return sql
+	}
 	lines := strings.Split(sql, "\n")
 	var result []string
 
@@ -756,7 +763,7 @@ func formatSQL(sql string, opts FormattingOptions) string {
 		result = append(result, currentIndent+trimmed)
 	}
 
-	formatted := strings.Join(result, "\n")
+	formatted := restore(strings.Join(result, "\n"))
 
 	if opts.InsertFinalNewline && !strings.HasSuffix(formatted, "\n") {
 		formatted += "\n"
